@@ -174,6 +174,19 @@ func c13AacPayloads() [][]byte {
 		append(au(8191), frame...), au(5), au(), []byte{}, []byte{0}, []byte{0, 0}, []byte{0, 7, 1}, []byte{0, 8, 1},
 		[]byte{0xff, 0xff}, []byte{0xff, 0xff, 1, 2, 3}, []byte{0, 16}, []byte{0, 16, 0}, []byte{0, 32, 0, 0x28},
 		[]byte{0, 17, 0, 0x28, 1, 2, 3, 4, 5, 6}, []byte{0, 48, 0, 8, 0, 8, 0, 8, 1, 2, 3})
+	// every AU-headers-length (in bits, byte aligned or not) with the packet cut at every length around the end of the
+	// header section: the rounding of bits to bytes against the packet length
+	for bits := 1; bits <= 40; bits++ {
+		nb := (bits + 7) / 8
+		full := []byte{byte(bits >> 8), byte(bits)}
+		for i := 0; i < nb; i += 2 {
+			full = append(full, 0, 2<<3) // AU-header: size 2, index 0
+		}
+		full = append(full[:2+nb], 0xa1, 0xa2, 0xa3, 0xa4)
+		for cut := 2; cut <= len(full); cut++ {
+			out = append(out, append([]byte(nil), full[:cut]...))
+		}
+	}
 	return out
 }
 
